@@ -194,7 +194,13 @@ func ruleGlobal(c *Ctx) *RuleResult {
 			continue
 		}
 		r.inst("function %s", c.short(fn))
-		if u := E.UnknownOf(fn); len(u) > 0 {
+		var u []string
+		for _, x := range E.UnknownOf(fn) {
+			if x != "go statement" && x != "select statement" { // reported by NOSHARE
+				u = append(u, x)
+			}
+		}
+		if len(u) > 0 {
 			r.undecided("%s reaches effects the analysis has no summary for (%s): it cannot be shown to leave package-level state alone", c.short(fn), strings.Join(u, ", "))
 		}
 		bad := 0
